@@ -50,7 +50,7 @@ Proof. vm_compute. reflexivity. Qed.
 
 (* Part 3: on the HARDWARE model (Hw.v: floo_route_select's SourceRouting decision -- the low
    clog2(NumRoutes) bits select the port, the word is shifted --, NoLoopback, signals followed from driver
-   to reader, the word held in the emitted route_t field), for every description and on both networks: the
+   to reader, the word held in the emitted route_t field), for every description and on every physical network (request, response and, in narrow-wide networks, wide: `net_ok d nt`): the
    word the generator emits for the pair (s0, t), injected at s0, is delivered to exactly t, leaves only zero
    bits, and traverses exactly the routers of a shortest path.  Hypotheses (decidable, evaluated in the
    example): the wiring checker passes on the emitted netlist (C05, second half), and s0 injects into the
@@ -58,7 +58,7 @@ Proof. vm_compute. reflexivity. Qed.
 From FV Require Import Build BuildProofs RefOracle HwProofs.
 Theorem C03_hw_delivered :
   forall (d : desc) (g : graph) (c : compiled) (ri : rinfo) (n : netlist) (t : cni) (nt : net),
-    nt = Req \/ nt = Rsp ->
+    net_ok d nt ->
     build d = Ok g -> compile d g = Ok c -> gen_routing_info sp_reference c = Ok ri -> emit c ri = Ok n ->
     d_algo d = SRC -> In t (c_nis c) -> chk_C05 n = [] ->
     forall s0 id ps p, In s0 (c_nis c) -> gen_route sp_reference c s0 t = Ok (id, Some ps) ->
@@ -91,7 +91,7 @@ Proof. vm_compute. reflexivity. Qed.
 From FV Require Import Side WireProofs.
 Theorem C03_hw_delivered_model :
   forall (d : desc) (g : graph) (c : compiled) (ri : rinfo) (n : netlist) (t : cni) (nt : net),
-    nt = Req \/ nt = Rsp ->
+    net_ok d nt ->
     build d = Ok g -> compile d g = Ok c -> gen_routing_info sp_reference c = Ok ri -> emit c ri = Ok n ->
     d_algo d = SRC -> In t (c_nis c) ->
     names_sepb g nt = true -> single_attachb g c = true -> links_typedb g c = true ->
@@ -123,7 +123,7 @@ Print Assumptions C03_table_indexing.
 
 Theorem C03_hw_end_to_end :
   forall (d : desc) (g : graph) (c : compiled) (ri : rinfo) (n : netlist) (t : cni) (nt : net),
-    nt = Req \/ nt = Rsp ->
+    net_ok d nt ->
     build d = Ok g -> compile d g = Ok c -> gen_routing_info sp_reference c = Ok ri -> emit c ri = Ok n ->
     d_algo d = SRC -> In t (c_nis c) ->
     names_sepb g nt = true -> single_attachb g c = true -> links_typedb g c = true ->
